@@ -17,9 +17,9 @@ name by Go/C12 but three names in C20; `| fields $` rejected by Go/C12 but accep
 `EqualFold` but not for C20's ASCII folding).  The model was repaired; the three `*_witness` theorems below now state AGREEMENT of
 both models on those very inputs (both sides computed by `decide`; names kept for the audit trail), and wave 4 adds the general
 equality `cons_kw_pipeFields_eq_parsePipeFields` on an explicit domain.
-RESIDUAL DISAGREEMENT (documented model restriction of C20, reachable text): a single non-ASCII NON-letter rune such as `€`:
-Go / C12 (`isTokenRune` false) reject `| fields €` ("unexpected symbol"), C20's `isTokenChar` takes every non-ASCII character as a
-letter and accepts the name: `cons_kw_nonascii_symbol_witness`.
+FORMER RESIDUAL DISAGREEMENT, repaired as well: a single non-ASCII NON-letter rune such as `€` - Go / C12 (`isTokenRune` false)
+reject `| fields €` ("unexpected symbol"); C20 used to take every non-ASCII character as a letter.  `SV.Fields.Tok` now carries
+the unicode oracle bit `letter` for its first rune and `cons_kw_nonascii_symbol_witness` states agreement (both reject).
 -/
 namespace SV.Consistency
 open SV.Parser
@@ -29,7 +29,8 @@ open SV.Parser
 def kwConvChar (r : Rn) : Char := if r.cp = wildcardCp then '*' else Char.ofNat r.cp
 
 /-- a C12 lexer token read as a C20 token: the text as characters (one per rune), the quoting and space flags -/
-def kwTokOfLTok (t : LTok) : SV.Fields.Tok := ⟨t.rs.map kwConvChar, t.quoted, t.space⟩
+def kwTokOfLTok (t : LTok) : SV.Fields.Tok :=
+  ⟨t.rs.map kwConvChar, t.quoted, t.space, match t.rs with | r :: _ => r.letter || r.digit | [] => false⟩
 
 /-- what it means for C12's `EqualFold` oracle to be C20's written-out folding (`foldText`: ASCII upper case, U+017F, U+212A)
 on a token, for the four keywords of the pipe header -/
@@ -101,7 +102,7 @@ theorem cons_kw_fieldList_composite_name_witness :
     let fl : LTok := ⟨[⟨[102], 102, true, false, false, 102, false⟩], false, true, .fields⟩
     let toks : List LTok := [fl, ⟨[a], false, true, .none⟩, ⟨[m], false, false, .none⟩, ⟨[b], false, false, .none⟩]
     pipeFields toks = .ok (⟨false, [[97, 45, 98]]⟩, []) ∧
-    SV.Fields.parsePipeFields [⟨"fields".toList, false, true⟩, ⟨['a'], false, true⟩, ⟨['-'], false, false⟩, ⟨['b'], false, false⟩]
+    SV.Fields.parsePipeFields [⟨"fields".toList, false, true, true⟩, ⟨['a'], false, true, true⟩, ⟨['-'], false, false, true⟩, ⟨['b'], false, false, true⟩]
       = some (false, [['a', '-', 'b']], []) := by decide
 
 /-- 2. `fields $`: C12 (= Go, "unexpected symbol") rejects; C20's first version accepted the name `$`, now rejects too -/
@@ -109,7 +110,7 @@ theorem cons_kw_fieldList_symbol_name_witness :
     let d : Rn := ⟨[36], 36, false, false, false, 36, false⟩
     let fl : LTok := ⟨[⟨[102], 102, true, false, false, 102, false⟩], false, true, .fields⟩
     pipeFields [fl, ⟨[d], false, true, .none⟩] = .err ∧
-    SV.Fields.parsePipeFields [⟨"fields".toList, false, true⟩, ⟨['$'], false, true⟩] = none := by decide
+    SV.Fields.parsePipeFields [⟨"fields".toList, false, true, true⟩, ⟨['$'], false, true, true⟩] = none := by decide
 
 /-- 3. `fieldſ a` (long s, U+017F): Go's `EqualFold` says keyword `fields` (C12: oracle answer `.fields` -> a pipe);
 C20's first version (ASCII folding) said no keyword -> parse error; now `foldChar` maps U+017F to `s` (and `KwAsciiOK` holds for this token). -/
@@ -117,8 +118,8 @@ theorem cons_kw_isKeyword_unicode_fold_witness :
     let a : Rn := ⟨[97], 97, true, false, false, 97, false⟩
     let t : LTok := ⟨[⟨[0xC5, 0xBF], 0x17F, true, false, false, 0x17F, false⟩], false, true, .fields⟩
     pipeFields [t, ⟨[a], false, true, .none⟩] = .ok (⟨false, [[97]]⟩, []) ∧
-    SV.Fields.isKeyword ⟨['f', 'i', 'e', 'l', 'd', Char.ofNat 0x17F], false, true⟩ "fields".toList = true ∧
-    SV.Fields.parsePipeFields [⟨['f', 'i', 'e', 'l', 'd', Char.ofNat 0x17F], false, true⟩, ⟨['a'], false, true⟩] =
+    SV.Fields.isKeyword ⟨['f', 'i', 'e', 'l', 'd', Char.ofNat 0x17F], false, true, true⟩ "fields".toList = true ∧
+    SV.Fields.parsePipeFields [⟨['f', 'i', 'e', 'l', 'd', Char.ofNat 0x17F], false, true, true⟩, ⟨['a'], false, true, true⟩] =
       some (false, [['a']], []) := by decide
 
 /-- where they agree - the shape C20's harness generates: space-separated single composite tokens, optional commas -/
@@ -129,7 +130,7 @@ theorem cons_kw_fieldList_simple_agree_example :
     let ex : LTok := ⟨[⟨[101], 101, true, false, false, 101, false⟩], false, true, .except⟩
     let cm : LTok := ⟨[⟨[44], 44, false, false, false, 44, false⟩], false, false, .comma⟩
     pipeFields [fl, ex, ⟨[a], false, true, .none⟩, cm, ⟨[b], true, true, .none⟩] = .ok (⟨true, [[97], [98]]⟩, []) ∧
-    SV.Fields.parsePipeFields [⟨"fields".toList, false, true⟩, ⟨"except".toList, false, true⟩, ⟨['a'], false, true⟩, ⟨[','], false, false⟩, ⟨['b'], true, true⟩]
+    SV.Fields.parsePipeFields [⟨"fields".toList, false, true, true⟩, ⟨"except".toList, false, true, true⟩, ⟨['a'], false, true, true⟩, ⟨[','], false, false, true⟩, ⟨['b'], true, true, true⟩]
       = some (true, [['a'], ['b']], []) := by decide
 
 /-! ## the general equality (wave 4): `Parser.pipeFields` = `Fields.parsePipeFields` -/
@@ -142,7 +143,7 @@ structure KwTokOK (t : LTok) : Prop where
   emptyQuoted : t.rs = [] → t.quoted = true
   keys : KwAsciiOK t
   cls : ∀ r rest, t.rs = r :: rest → r.cp ≠ wildcardCp →
-    isTokenRune r = SV.Fields.isTokenChar (Char.ofNat r.cp) ∧ (Char.ofNat r.cp).toNat = r.cp
+    isTokenRune r = SV.Fields.firstTokenRune (kwTokOfLTok t) (Char.ofNat r.cp) ∧ (Char.ofNat r.cp).toNat = r.cp
   len : ∀ r rest, t.rs = r :: rest → decide (byteLen rest > 1) = decide (SV.Fields.utf8Len (rest.map kwConvChar) > 1)
 
 theorem kw_isComposite (t : LTok) (h : KwTokOK t) : isComposite t = SV.Fields.isComposite (kwTokOfLTok t) := by
@@ -169,7 +170,11 @@ theorem kw_isComposite (t : LTok) (h : KwTokOK t) : isComposite t = SV.Fields.is
           · simp [h42]
           · have : Char.ofNat r.cp ≠ '*' := fun e => h42 (by rw [← h2, e]; rfl)
             simp [h42, this]
-        rw [hc, e1, e2, ← h1, ← hl]
+        have h1' : isTokenRune r = (if (Char.ofNat r.cp).toNat < 128 then SV.Fields.isTokenChar (Char.ofNat r.cp)
+            else (r.letter || r.digit)) := by
+          simpa [SV.Fields.firstTokenRune, kwTokOfLTok, hrs] using h1
+        simp only [SV.Fields.firstTokenRune]
+        rw [hc, e1, e2, ← h1', ← hl]
         by_cases hb : byteLen rest > 1
         · simp [hb]
         · simp [hb, hw]
@@ -378,14 +383,17 @@ example : KwTokOK ⟨[⟨[97], 97, true, false, false, 97, false⟩], false, tru
     obtain ⟨rfl, rfl⟩ := h
     decide
 
-/-- **residual disagreement** (documented restriction of the repaired C20 model; reachable text `| fields €`): a single
-non-ASCII rune that is no letter/digit is not a composite token for Go / C12 (`isTokenRune` false -> "unexpected symbol"),
-while C20's `isTokenChar` takes every non-ASCII character as a letter and accepts the name.  `KwTokOK.cls` fails for it. -/
+/-- **former residual disagreement, repaired** (reachable text `| fields €`): a single non-ASCII rune that is no
+letter/digit is not a composite token for Go / C12 (`isTokenRune` false -> "unexpected symbol").  C20's second
+version took every non-ASCII character as a letter and accepted the name; `SV.Fields.Tok` now carries the unicode
+oracle bit `letter` (Go's `IsLetter || IsDigit` for the first rune, `kwTokOfLTok` fills it from the rune record),
+`firstTokenRune` consults it for non-ASCII runes, and both sides reject.  `KwTokOK.cls` is then automatic for non-ASCII
+first runes. -/
 theorem cons_kw_nonascii_symbol_witness :
     let eur : Rn := ⟨[0xE2, 0x82, 0xAC], 0x20AC, false, false, false, 0x20AC, false⟩
     let fl : LTok := ⟨[⟨[102], 102, true, false, false, 102, false⟩], false, true, .fields⟩
     pipeFields [fl, ⟨[eur], false, true, .none⟩] = .err ∧
-    SV.Fields.parsePipeFields [⟨"fields".toList, false, true⟩, ⟨[Char.ofNat 0x20AC], false, true⟩]
-      = some (false, [[Char.ofNat 0x20AC]], []) := by decide
+    SV.Fields.parsePipeFields [⟨"fields".toList, false, true, true⟩, ⟨[Char.ofNat 0x20AC], false, true, false⟩]
+      = none := by decide
 
 end SV.Consistency
